@@ -14,22 +14,115 @@ CLAIMS = {
              "reference/assign operator forms proved equal to the value forms with the primitive arithmetic uninterpreted.",
         note=TB + "exp/powf/div_euclid/rem_euclid/mul_add: the math shim is an uninterpreted function shared by code and spec (leaf forwarding to std assumed). "
              "Sum/Product bounded (iterator length 3), thorough tier only. NEON/wasm32/core-simd/libm not covered.",
-        technique="Kani function contracts (proof_for_contract, stub_verified) on woven real code, CBMC SAT + cvc5", ref="5 C01"),
+        technique="Kani function contracts (proof_for_contract, stub_verified) on woven real code, CBMC SAT + cvc5", ref="5 C01, 9"),
+    "C02": dict(
+        text="What each geometry function computes, bit-precisely over the full domain: dot/length_squared/element_sum/product/distance_squared as sums/products of the right "
+             "single-rounded lane terms in some association order (tree_in, fast path + full disjunction), cross/perp_dot lanes, exact integers on the lattice, length/distance/"
+             "normalize through an uninterpreted sqrt, the exact control predicate of the normalize family, and the documented structure of lerp/midpoint/project/reject/reflect/refract/angle_between.",
+        note=TB + "A3: the rounding bound (few eps x sum of magnitudes) of the verified expression trees is assumed, not machine-checked; accuracy of acos_approx and "
+             "'checked normalize forms never return a non-finite vector' are not decided.",
+        technique="call-site contracts (tree_in, control, structure) on the real functions, Kani/CBMC + cvc5, exact-lattice identities", ref="5 C02, 9.2"),
+    "C03": dict(
+        text="mul_vec as tree_in over the full domain; woven lane contracts on add/sub/scalar ops and negation; operator forms and the column structure of A*B proved by forwarding lemmas "
+             "with the named methods uninterpreted; exact-lattice identities for M*v, A*B, (A*B)*v, determinant (Laplace expansion) and inverse*det == adjugate.",
+        note=TB + "A3/A4: off-lattice accuracy and the polynomial-on-a-grid uniqueness argument are assumptions; inverse exact only where 1/det is exact; 4x4 and f64 lattice obligations in the thorough tier.",
+        technique="Kani function contracts + forwarding lemmas (uninterpreted callees) + exact-lattice polynomial identities (CBMC SAT)", ref="5 C03"),
+    "C04": dict(
+        text="Woven component-wise contracts on Quat/DQuat + - *s /s neg, bit contract on conjugate, dot as tree_in, length/normalize through an uninterpreted sqrt; exact-lattice "
+             "identities: Hamilton product, q*v == vector part of q v q* (Vec3 and Vec3A), q/-q act alike, inverse undoes; operator forms == named methods.",
+        note=TB + "A3/A4 as C03; DQuat lattice obligations and (q*p)*v associativity in the thorough tier.",
+        technique="Kani function contracts + exact-lattice polynomial identities", ref="5 C04"),
+    "C05": dict(
+        text="Every from_mat*/From/as_* between matrix and affine types found in the source: entry (r,c) preserved bit-for-bit with identity padding (full domain); from_quat exact on the lattice "
+             "(qmat(q) + (1-|q|^2) I); action agreement and commutation with composition exact on the lattice; matrix->quaternion branch contract on integer matrices and exact round trip on the rational cube rotations (all four branches).",
+        note=TB + "A4: the round trip for general rotations is a mathematical corollary of the branch contract; sqrt uninterpreted / pinned on exact points.",
+        technique="generated bit-level call-site contracts + exact-lattice lemmas + control contract with uninterpreted sqrt", ref="5 C05"),
+    "C06": dict(
+        text="Bit-for-bit column-major layout clauses for every constructor/accessor pair of the 7 matrix and 4 affine types found in the source, transpose, from_diagonal, the minor constructors "
+             "for every (i,j), col_mut frame, always-panics obligations for out-of-range indices, and the affine transform_point/transform_vector structure.",
+        note=TB + "M*v == sum v[c]*col(c) and (A*B)*v == A*(B*v) are obligations of C03.",
+        technique="generated full-domain bit-level call-site contracts, always-panics contracts (Kani/CBMC SAT, cvc5 for structure)", ref="5 C06"),
+    "C07": dict(
+        text="The contracts of C01-C04 on the SIMD-backed types are generated with identical text for the sse2, scalar-math and +fma,+avx2 builds (checked on every run) and discharged in the fma build (quick) / all three builds (thorough).",
+        note=TB + "A6: rustc/LLVM do not contract or re-associate float ops without fast-math; core-simd / NEON / wasm32 not buildable; Debug/Display text not decided.",
+        technique="same contract text discharged per build configuration (Kani/CBMC + cvc5)", ref="5 C07"),
+    "C08": dict(
+        text="Two-run non-interference obligations (bit-identical visible lanes, independently symbolic hidden lanes, transcendentals uninterpreted) for every public method of Vec3A/Mat3A/Affine3A found in the source, "
+             "their operators and conversions out, and all BVec3A observers; every other property's obligations over these types run with a symbolic hidden lane.",
+        note=TB + "Debug/Display not decided; the lane does not exist under scalar-math; core-simd not compiled.",
+        technique="two-run non-interference contracts over symbolic hidden lanes (Kani/CBMC SAT)", ref="5 C08"),
+    "C09": dict(
+        text="Single-axis rotation constructors equal the textbook matrices / half-angle quaternions for every angle bit pattern with sin_cos uninterpreted; Rodrigues polynomial exact on the lattice; "
+             "from_euler for all 24 orders EXACTLY equals the product of the elemental constructors in the named order (matrices and quaternions).",
+        note=TB + "A5: sin_cos uninterpreted with odd/even symmetry; A4: orthonormality/det +1 are corollaries; to_euler/to_axis_angle/to_scaled_axis are NOT decided.",
+        technique="uninterpreted-function lemmas + exact-lattice polynomial identities on the real constructors", ref="5 C09"),
+    "C10": dict(
+        text="Each composite TRS constructor equals the documented product T*R*S exactly on the lattice (3D, 2D, f32, f64); decomposition returns the last column bit-for-bit (full domain) and "
+             "recomposition is exact on shear-free lattice transforms with all 8 scale sign patterns and all four matrix->quaternion branches.",
+        note=TB + "A4/A5 as C05/C09; recomposition accuracy for arbitrary scales/rotations and the 2D angle are not decided.",
+        technique="exact-lattice lemmas on the code itself, uninterpreted sin_cos / pinned sqrt", ref="5 C10"),
+    "C11": dict(
+        text="Every perspective_*/orthographic_* constructor maps near/far planes and frustum/box edges to the documented values and emits w = -z / +z, exactly, on power-of-two inputs with tan/sin_cos uninterpreted; "
+             "look_to_* assembly (rows s,u,-f; translation; eye->origin; dir->-Z/+Z; up->+Y half-plane; lh==rh(-dir)) exact on lattice inputs.",
+        note=TB + "A5: uninterpreted tan/sin_cos/sqrt with power-of-two values; quaternion look_to forms only through C05; numerical accuracy for arbitrary parameters assumed (A3).",
+        technique="exact plane-mapping lemmas with uninterpreted transcendentals", ref="5 C11"),
+    "C12": dict(
+        text="lerp endpoints (value-exact for finite operands), move_towards and clamp_length* control predicates and structure, exact orthogonality of any_orthogonal_vector, FloatExt forms, "
+             "from_rotation_arc(_colinear/_2d) threshold branches and the slerp fallback/sign-flip branch.",
+        note=TB + "slerp angle proportionality, never-overshoot, rotate_towards semantics, orthonormality of any_orthonormal_* and from_rotation_arc(a,b)*a == b are NOT decided (real trigonometry).",
+        technique="control and structure contracts at the call site, uninterpreted sqrt/sin/acos (Kani/CBMC + cvc5)", ref="5 C12"),
+    "C13": dict(
+        text="Generated full-domain lane-lift clauses for the 27 integer vector types from the source's fn/impl lists and an op->primitive dictionary: value clauses under the no-panic precondition, checked_ forms, "
+             "and must-panic obligations (overflow, division by zero, MIN/-1, shift >= width).",
+        note=TB + "Overflow-checking profile only; multi-term 16/32/64-bit products excluded where the solvers time out (listed in evidence); Sum/Product over iterators not covered.",
+        technique="generated call-site contracts incl. always-panics contracts (Kani/CBMC SAT + cvc5)", ref="5 C13"),
+    "C14": dict(
+        text="Every as_*/From/TryFrom/extend/truncate/from_vec4 between vector types found in the source, lane by lane against the Rust primitive conversion, all source bit patterns.",
+        note=TB + "Quick tier: float-source and SIMD types; thorough: all 40 types.",
+        technique="generated full-domain call-site contracts (Kani/CBMC SAT)", ref="5 C14"),
+    "C15": dict(
+        text="Mask types as data structures over the view [bool;N] with full-view postconditions, observers as functions of the view (recording Hasher), SIMD vs plain mask identity, "
+             "integer cmp*, select on all vector types, always-panics for out-of-range test/set.",
+        note=TB + "float cmp* are C01 contracts; Debug/Display not decided.",
+        technique="data-structure contracts over an abstract view (Kani/CBMC SAT)", ref="5 C15"),
     "C16": dict(
         text="Every swizzle getter/setter clause, generated from the method names found in the current source, discharged full-domain "
              "(bit-for-bit lanes, frame of untouched lanes, round-trip laws) as bundled call-site obligations; sse2 and scalar builds.",
         note=TB + "Clauses are asserted at the call site (no woven attribute on the ~15000 one-line impl fns). Quick tier: Vec3A/Vec4 getters + all setters; thorough: all types.",
         technique="generated full-domain call-site contracts, Kani/CBMC SAT, two-stage clause naming", ref="5 C16"),
+    "C17": dict(
+        text="Abstract view = bits of to_array(); constructors, read paths and full-view write postconditions for the 40 vector types and Quat/DQuat, paths detected from the source; symbolic 3-step history lemma.",
+        note=TB + "Debug/Display not decided; arbitrary histories follow by induction over the per-write full-view clauses.",
+        technique="data-structure contracts over an abstract view, generated per type (Kani/CBMC SAT)", ref="5 C17"),
+    "C18": dict(
+        text="Every public float function found in the source called with fully symbolic arguments (transcendentals unconstrained): no failed panic/bounds/pointer check; slice functions for every length "
+             "(short => never returns, otherwise exactly the first N elements and frame); index panics; bounded native check that nothing is written before a short-slice panic.",
+        note=TB + "Kani/CBMC memory model replaces the ASan clause; the no-write-before-panic clause is a bounded native stand-in (labelled bounded); release profile not covered.",
+        technique="totality contracts (no reachable panic / invalid access) + always-panics contracts; bounded native stand-in for post-panic state", ref="5 C18, 9.1"),
+    "C19": dict(
+        text="serde through an exact no-alloc recording Serializer/Deserializer (tuple struct of N elements in order, bit-exact round trip, shorter sequences rejected) in the sse2 and scalar builds; "
+             "bytemuck byte image / zeroed / cast round trip and Pod-only-for-unpadded probes; mint round trips and row/column-major layout.",
+        note=TB + "serde_json text, rkyv, rand, approx and rejection of longer sequences are not decided; representative subset of the 54 value types (all shapes, all SIMD-backed types, masks).",
+        technique="contracts over an in-harness token stream / byte image (Kani/CBMC SAT)", ref="5 C19"),
+    "C20": dict(
+        text="glam-assert builds (sse2 and scalar): always-panics obligations for one representative of every kind of assertion site; frame scan of the assertion macro + re-discharged lattice value obligations "
+             "(assertions never change a value); exact producers (constants, lattice unit quaternion products, TRS matrices) satisfy the asserted preconditions.",
+        note=TB + "A7: macro frame scan is syntactic; chains of operations staying within the 2e-4 tolerance and normalize/slerp outputs are NOT decided.",
+        technique="always-panics contracts + syntactic frame condition + exact-lattice lemmas in the assert build", ref="5 C20"),
 }
 
 ALL = ["C%02d" % i for i in range(1, 21)]
+# properties whose check is not yet reliable on the unchanged tree: reason
+PENDING = 'check built; not yet validated end-to-end on the unchanged tree in this round (will be claimed once its quick command is stable)'
+UNCLAIMED = {p: PENDING for p in ['C02','C03','C04','C05','C07','C08','C09','C10','C11','C12','C13','C18','C19','C20']}
 NOT_YET = "not claimed yet: machinery for this property is still being built in this round (see DESIGN.md section 5 for the plan)"
 
 
 def main():
     checks = []
+    claimed = [p for p in ALL if p in CLAIMS and p not in UNCLAIMED]
     for pid in ALL:
-        if pid not in CLAIMS:
+        if pid not in claimed:
             continue
         c = CLAIMS[pid]
         checks.append({
@@ -54,10 +147,10 @@ def main():
             "source_commits": [],
             "add_only": True,
         },
-        "engines": [{"name": "kani-contracts", "path": "/verif/check", "serves_properties": sorted(CLAIMS),
+        "engines": [{"name": "kani-contracts", "path": "/verif/check", "serves_properties": claimed,
                      "kind_free_text": "contract-based deductive verification: Kani 0.68 function contracts woven onto the real glam functions, CBMC/cvc5 back ends"}],
         "checks": checks,
-        "not_applicable": [{"property_id": p, "reason": NOT_YET} for p in ALL if p not in CLAIMS],
+        "not_applicable": [{"property_id": p, "reason": UNCLAIMED.get(p, NOT_YET)} for p in ALL if p not in claimed],
         "notes": "exit 0 = every obligation discharged; exit 1 + VIOLATION line = an obligation refuted (replay file holds the counterexample run on the real code); "
                  "exit 2 = undecided (timeout / unsupported construct / lost anchor / vacuity / canary verified), never an alarm.",
     }
